@@ -171,7 +171,10 @@ class SimFS:
         self.log.add(kind, path, detail)
         if self.confine is not None:
             np_ = os.path.normpath(path)
-            if not (np_ == self.confine or np_.startswith(self.confine + "/")):
+            if not (np_ == self.confine or np_.startswith(self.confine + "/")
+                    or np_.startswith(ROOT + "/tmp/")):
+                # (the simulated temp directory is the writer's legitimate
+                # scratch space)
                 self.outside.append((kind, path))
         if self.record_calls:
             self.calls.append((k, kind, path,
